@@ -256,10 +256,10 @@ func (vc *VC) typeAssume(t T, typ types.Type) {
 		return
 	}
 	switch typ.Underlying().(type) {
-	case *types.Pointer, *types.Map, *types.Chan:
+	case *types.Map, *types.Chan:
 		vc.assert(Le(I(0), t))
-	case *types.Interface:
-		vc.assert(Le(I(0), t))
+	case *types.Pointer, *types.Interface:
+		// no sign constraint: interior pointers (into slices / embedded structs) are negative addresses
 	}
 	if b, ok := typ.Underlying().(*types.Basic); ok && b.Info()&types.IsString != 0 {
 		vc.assert(Le(I(0), t))
@@ -634,6 +634,8 @@ type Frame struct {
 	loopKeys map[*ssa.BasicBlock][]string
 	loopRidx map[*ssa.BasicBlock][]*Cell
 	siteOrd  map[ssa.Instruction]int
+	curBlock *ssa.BasicBlock
+	reach    map[*ssa.BasicBlock]map[*ssa.BasicBlock]bool
 }
 
 type Exec struct {
